@@ -50,6 +50,8 @@ FIXED = [
     "( 1 , 2 , 3 ) => reverse ( )", "'abc' => contains ( 'a' )", "( 3 , 1 ) => sort ( )", "( 1 , 2 ) => head ( )",
     "( 1 , 2 , 3 ) => ( function ( $s ) { count ( $s ) } ) ( )", "- 1 => ( abs # 1 ) ( )", "( 1 , 2 ) => tail ( ) => count ( )",
     "( 1 , 2 ) => for-each ( function ( $x ) { $x + 1 } )", "'a' => ( concat ( ? , 'b' , ? ) ) ( 'c' )",
+    "if ( a , 2 ) then 1 else 0", "a / node ( ) * 2", "a / text ( ) + 1", ". instance of node ( ) ? and true ( )",
+    "( 3 => concat ( ? , 2 ) ) ( 1 )", "( 1 , 2 , 3 ) => remove ( ? ) ",
 ]
 
 
